@@ -1,13 +1,38 @@
-//! C16, black-box "footprint" half: a REAL sozu worker (rig) is driven through
-//! mixes of session outcomes; afterwards every gauge must be back at its idle
-//! baseline, the admission limits (`max_connections`, per-(cluster, source IP))
-//! must never have been exceeded, slots must have been released, idle/stuck
-//! sessions reclaimed, and the worker must still answer.
+//! C16, black-box "footprint" half: a REAL sozu worker (rig: `Server` in a
+//! thread, command channel, scripted raw TCP/TLS clients and backends) is driven
+//! through mixes of session outcomes; afterwards the worker must be back at its
+//! idle footprint and must never have exceeded its admission limits.
 //!
-//! No Lean driver: the oracles are the property's own (a small reference
-//! monitor for the per-IP slots, counting for max_connections, baseline
-//! comparison for the gauges). One case = one worker = one op list (first op
-//! `fp-new …`), replayable with `--replay`.
+//! No Lean driver: the oracles are the property's own. One case = one worker =
+//! one op list (first op `fp-new …`), replayable with `--replay` (replay files
+//! whose first op is not `fp-new` belong to the other C16 run and are skipped).
+//! `--ops "fp-new …; h get 0 a; …" [--repeat n]` runs one hand-written case.
+//!
+//! Oracle classes (stable fingerprints):
+//! * `gauge-not-back-to-baseline:<gauge>` – with every peer closed, after
+//!   max(timeouts)+6 s, a resource gauge of QueryMetrics differs from the idle
+//!   baseline taken after a warm-up (list: `RESOURCE_GAUGES`);
+//! * `gauge-negative-or-underflow` – a gauge ≥ 2^60, or the worker's error log
+//!   reports the local drain clamping an underflow;
+//!   `gauge-below-live-count:<gauge>` – a gauge reads less than the number of
+//!   sessions that are provably being served at that moment;
+//! * `served-exceeds-max-connections`, `accept-not-resumed` – storms;
+//! * `per-ip-limit-exceeded`, `per-ip-slot-leak`, `per-ip-double-slot`,
+//!   `per-ip-holder-refused`, `per-ip-refused-while-disabled`,
+//!   `per-ip-limit-not-applied` – reference monitor of the (cluster, 127.0.0.1)
+//!   slot holders + the final slot probe (limit 1: exactly one admitted);
+//! * `idle-session-not-reclaimed`, `stuck-session-not-reclaimed`,
+//!   `request-not-served`;
+//! * `worker-dead-or-wedged`, `warm-up-failed`;
+//! * candidate known findings with their own fingerprints:
+//!   `websocket-upgrade-leaks-backend-connection`,
+//!   `per-ip-limit-exceeded-after-reenable` (witness replayed on every run).
+//!
+//! False-alarm discipline: every "must be refused" verdict re-checks that the
+//! holders are still open after the fact (sozu closes a timed-out holder before
+//! it admits the newcomer); every "must be admitted" verdict first waits until
+//! `client.connections` equals the number of open clients; deadlines are the
+//! configured timeout + 6 s; per-IP cases run with 30 s timeouts.
 use std::collections::{BTreeMap, BTreeSet, HashSet};
 use std::io::{Read, Write};
 use std::net::SocketAddr;
@@ -2462,7 +2487,7 @@ fn main() {
     }
 
     let thorough = args.thorough();
-    let n = args.cases.unwrap_or(if thorough { 2500 } else { 300 });
+    let n = args.cases.unwrap_or(if thorough { 2500 } else { 250 });
     let mut cases: Vec<Vec<String>> = corpus();
     let ncorpus = cases.len() as i64;
     for i in 0..n {
@@ -2512,8 +2537,8 @@ fn main() {
         for t in &run.tags {
             *dist.entry(t.clone()).or_insert(0) += 1;
         }
-        let fam = ops[0].split_whitespace().filter(|f| f.starts_with("max=") || f.starts_with("perip=") || f.starts_with("tls=")).collect::<Vec<_>>().join(" ");
-        let _ = fam;
+        let fam = if ops[0].contains("front=30") { "perip" } else if ops[0].contains("front=10") { "storm" } else { "mix" };
+        *dist.entry(format!("family:{fam}")).or_insert(0) += 1;
         *dist.entry(format!("len:{}", (ops.len() / 8) * 8)).or_insert(0) += 1;
         if run.nontrivial {
             use std::hash::{Hash, Hasher};
@@ -2590,6 +2615,15 @@ fn main() {
         "wall_s": t0.elapsed().as_secs_f64(),
     });
     write_out(&res);
+    // worker logs of cases that ended abnormally
+    if let Ok(rd) = std::fs::read_dir("/tmp") {
+        let prefix = format!("fp-{}-", std::process::id());
+        for e in rd.flatten() {
+            if e.file_name().to_string_lossy().starts_with(&prefix) {
+                let _ = std::fs::remove_file(e.path());
+            }
+        }
+    }
     println!(
         "footprint: {} cases, {} clean, {} distinct non-trivial, {} failure(s), {:.1} s (slowest case {:.1} s)",
         evaluations,
